@@ -26,8 +26,9 @@ def num(v):
     return str(v) if v >= 0 else '-' + str(-v)
 
 class Case:
-    __slots__ = ('src', 'core', 'mn', 'addr', 'toks', 'dev')
+    __slots__ = ('src', 'core', 'mn', 'addr', 'toks', 'dev', 'prefix')
     def __init__(self, mn, ops_text, toks, core=0, addr=0, dev=None):
+        self.prefix = ''      # bytes (hex) the program emits before the instruction under test
         line = mn + (' ' + ', '.join(ops_text) if ops_text else '')
         self.src = ('.device %s\n' % dev if dev else '') + line
         self.core, self.mn, self.addr, self.toks, self.dev = core, mn, addr, toks, dev
@@ -188,7 +189,7 @@ def run_enc(cases, model_ok=True, prop='C01'):
             dis.append({'source': c.src, 'impl': a, 'model': model.get(k, 'MISSING')})
         s = spec[i]
         if s.startswith('W'):
-            exp = expected_canon_code(s)
+            exp = c.prefix + expected_canon_code(s)
             if not a.startswith('OK') or code_of(a) != exp:
                 vio.append({'what': 'valid instruction not assembled to its ISA encoding' if not a.startswith('OK') or True else '',
                             'source': c.src, 'impl': a[:200], 'expected_code': exp, 'key': c.mn})
